@@ -4,18 +4,43 @@
     comparison golib had (AsIsMaps) is refuted (PAntisym).
 (A/B) Trace_ValueLaws: the real Equals/CompareTo matrices of pools of values (families of close neighbours, samples of the
     small-scope enumeration, large random values and mutated copies, nil/empty payloads, each with its decoded copy) judged
-    by TLC over all pairs and triples."""
+    by TLC over all pairs and triples; ladders through the full range of every payload domain embedded as scalars, array
+    elements, map keys and container items (gen extreme); pools whose objects LIVE ON through rounds of public mutators
+    (gen mut: Put, PutAll, Clear, Add, Set, Read into the object, exported fields, ...), every round judged by the same
+    laws plus Fresh (a member and the object built afresh from its observed content are interchangeable) and Stable
+    (members whose content did not change get the same answers as in the round before)."""
+
+
+import re
+
+import vf
+
+
+def mut_selftest(run, out, meta):
+    """the shared selftest takes the first job that has a history of the generator; gen mut lives in the second file"""
+    live = dict(meta, jobs=[j for j in meta.get("jobs", []) if j["trace"].startswith("c20_live")])
+    run.selftest(out, live, gen="mut", field="twin")
 
 
 def body(run):
-    run.mc("MC_ValueLaws", cfg="MC_ValueLaws_thorough.cfg" if run.thorough() else "MC_ValueLaws.cfg", coverage=not run.thorough())
+    r = run.mc("MC_ValueLaws", cfg="MC_ValueLaws_thorough.cfg" if run.thorough() else "MC_ValueLaws.cfg")
+    # Non-vacuity without TLC's coverage mode (several times slower on the large constant matrices): every action was taken
+    # for every member iff the state graph is the initial state, the 32 blocks, and per non-NaN member its first judgement,
+    # the round of mutators and the second judgement.
+    m = re.search(r'"MC_ValueLaws universe", (\d+), "members", (\d+)', r["out"])
+    if not m or r.get("distinct") != 1 + 32 + 3 * int(m.group(2)):
+        raise vf.MachineryError("MC_ValueLaws: expected 1 + 32 + 3 * members states (both judgements of every member), got %s for %s" % (r.get("distinct"), m and m.groups()))
     run.mc("MC_ValueLaws", cfg="MC_ValueLaws_asis.cfg", expect_violation="PAntisym")
     out, meta = run.drive("c20")
     run.absorb(meta)
     run.validate(out, meta, timeout=3000)
     run.selftest(out, meta, gen="family", field="C")  # flips the last entry of the CompareTo matrix: x.CompareTo(x) = 1
+    # gen mut: the twin of the last member becomes member 1 (another content); a removed Pool leaves Mutate without a pool
+    mut_selftest(run, out, meta)
     run.assumptions += [
         "NaN never occurs in a pool and the specification skips members containing NaN: the property is silent about NaN (IEEE inequality contradicts reflexivity by definition)",
         "only laws are judged: the direction of the order within a type (golib orders most scalar types descending) and the order of the type codes are not prescribed",
         "the matrices record the sign of CompareTo and whether a call panicked; nil is not a value and is never an operand",
+        "gen mut: the content of a live object is what its public getters, enumerations and exported fields show (the twin is built from exactly that); "
+        "what a mutator is supposed to do to the content is not judged here, only that Equals/CompareTo remain lawful functions of the content afterwards",
     ]
